@@ -10,6 +10,7 @@ import H263V.Lemmas.AnnexA4
 import H263V.Lemmas.AnnexA5
 import H263V.Lemmas.AnnexA6
 import H263V.Lemmas.AnnexA7
+import H263V.Lemmas.F32Range
 namespace H263V.Thm.C10
 open H263V H263V.Idct H263V.Spec.AnnexA H263V.Lemmas.AnnexA
 
@@ -33,5 +34,18 @@ theorem dc_only_peak : dcAllOk = true := dc_all_ok
 the full coefficient range (a sample, as the property's quantifier prescribes) -/
 theorem first_row_peak_sample : sparseOk true 1 20000 = true := row_sample_ok
 theorem first_col_peak_sample : sparseOk false 1 20000 = true := col_sample_ok
+
+/-- The soft-float model is exact binary32 arithmetic on every block the decoder can produce: for every block whose
+coefficients are integers of magnitude at most 2048 (dequantisation saturates to −2048..2047, INTRADC levels are at most
+2040), in every one of the four shape paths, no product, partial sum or final scaling of the inverse transform leaves the
+normal range of binary32 (no overflow, no subnormal), so the "model gap" outcome is unreachable.  The bound on the basis
+table entries is checked on the table as regenerated from the source.  (All inputs, by interval analysis; no `native_decide`.) -/
+theorem idct_arithmetic_in_normal_range (b : Rle.Dct) (hb : Lemmas.F32Range.Dct.Bounded b) (res : Nat → Nat → Int) (bad : Bool)
+    (h : blockResidual b = some (res, bad)) : bad = false :=
+  Lemmas.F32Range.blockResidual_no_gap b hb res bad h
+
+/-- non-vacuity: a full-range block meets the hypothesis -/
+example : Lemmas.F32Range.Dct.Bounded (.full (List.replicate 64 (-2048))) := by
+  intro v hv; rw [List.mem_replicate] at hv; rw [hv.2]; decide
 
 end H263V.Thm.C10
